@@ -35,7 +35,7 @@ import (
 // forwards to the VFS observer the pause-point harness already uses.
 
 var lpFiles = []string{
-	"engine/shard.go", "engine/ts_storage.go", "engine/iterators.go",
+	"engine/shard.go", "engine/ts_storage.go", "engine/iterators.go", "engine/ts_index_info.go",
 	"engine/mutable/table.go", "engine/mutable/ts_table.go",
 	"engine/immutable/mms_tables.go", "engine/immutable/ts_mms_tables.go", "engine/immutable/tssp_file.go",
 	"engine/immutable/tssp_reader.go", "engine/immutable/compact.go", "engine/immutable/merge_out_of_order.go",
